@@ -5,8 +5,30 @@ From AdltV Require Import Base.Obs Base.Res Base.MachInt Dlt.Frame Dlt.Iter.
 Import ListNotations.
 Open Scope N_scope.
 
-(* input: start index, byte stream as segments (count, block) = block repeated count times *)
-Definition case_C01 := (N * list (N * list N))%type.
+(* how the iterator is wired to its input:
+   WCursor            DltMessageIterator::new(start, Cursor::new(bytes))  (the reader shows the whole rest)
+   WLowMark cap low look4
+                      DltMessageIterator::new(start, LowMarkBufReader::new(Cursor::new(bytes), cap, low)) as the crate's
+                      call sites do; [low] is the value of the crate's own low-mark expression
+                      (DLT_MAX_STORAGE_MSG_SIZE, or DLT_MAX_STORAGE_MSG_SIZE + 4 when look4) *)
+Inductive wiring : Type :=
+| WCursor
+| WLowMark (cap low : N) (look4 : bool).
+
+(* input: wiring, start index, byte stream as segments (count, block) = block repeated count times *)
+Definition case_C01 := (wiring * N * list (N * list N))%type.
+
+(* a storage-framed message occupies up to 16 + 65535 bytes; the heuristic looks at 4 more.  The buffered iterator
+   equals the whole-buffer iterator only if every fill_buf shows a complete message (or everything up to EOF):
+   low mark >= MAX_STORAGE_MSG (+ 4 where the call site promises the look-ahead), and LowMarkBufReader::new asserts
+   low + 4096 <= cap.  (Dlt/ChunkProofs.v, iter_chunk_independent, proves the equality for every stream from
+   low >= 65555; for streams whose markers sit only at message starts 65551 is what the messages need.) *)
+Definition MAX_STORAGE_MSG : N := 16 + 65535.
+Definition wiring_ok (w : wiring) : bool :=
+  match w with
+  | WCursor => true
+  | WLowMark cap low look4 => (MAX_STORAGE_MSG + (if look4 then 4 else 0) <=? low) && (low + 4096 <=? cap)
+  end.
 
 Fixpoint rep_block (k : nat) (b : bytes) : bytes := match k with O => [] | S k' => b ++ rep_block k' b end.
 Definition bytes_of_segs (segs : list (N * list N)) : bytes :=
@@ -14,9 +36,16 @@ Definition bytes_of_segs (segs : list (N * list N)) : bytes :=
 
 Definition o_c4 (c : char4) : otree := match c with (a, b, c', d) => L (be32 a b c' d) end.
 Definition cksum (l : bytes) : N := fold_left (fun h b => (h * 31 + b) mod 4294967296) l 7.
-(* short byte strings verbatim, long ones as length + checksum + first 8 bytes *)
+(* cheap position-sensitive checksum for long byte strings: s1 = sum of the bytes, s2 = sum of the running s1
+   (no modulus; N addition only) *)
+Definition cksum2 (l : bytes) : N :=
+  let r := fold_left (fun (p : N * N) x => let s1 := fst p + x in (s1, snd p + s1)) l (0, 0) in
+  snd r * 4294967296 + fst r.
+(* short byte strings verbatim, longer ones as length + checksum + first 8 bytes (cksum up to 4096 bytes, cksum2 above) *)
 Definition o_bytes (l : bytes) : otree :=
-  if Nat.leb (length l) 64 then T [L 0; T (map L l)] else T [L 1; L (blen l); L (cksum l); T (map L (firstn 8 l))].
+  if Nat.leb (length l) 64 then T [L 0; T (map L l)]
+  else if Nat.leb (length l) 4096 then T [L 1; L (blen l); L (cksum l); T (map L (firstn 8 l))]
+  else T [L 2; L (blen l); L (cksum2 l); T (map L (firstn 8 l))].
 Definition o_ext (e : ext_hdr) : otree := T [L (verb_mstp_mtin e); L (noar e); o_c4 (apid e); o_c4 (ctid e)].
 Definition o_msg (m : msg) : otree :=
   T [L (m_index m); L (m_reception_us m); o_c4 (m_ecu m); L (m_timestamp m);
@@ -31,5 +60,13 @@ Definition o_run (r : res (list msg * ist * bytes)) : otree :=
   | OutOfFuel => T [L 2]
   end.
 
-Definition run_C01 (c : case_C01) : otree := o_run (run_iter (fst c) (bytes_of_segs (snd c))).
+Definition run_C01 (c : case_C01) : otree :=
+  let '(w, start, segs) := c in
+  match w with
+  | WCursor => o_run (run_iter start (bytes_of_segs segs))
+  | WLowMark cap low look4 =>
+      (* the crate's constants must meet the bound; then the buffered run is the whole-buffer run *)
+      if wiring_ok w then o_run (run_iter start (bytes_of_segs segs))
+      else T [L 9; L MAX_STORAGE_MSG; L low; L cap]
+  end.
 Definition agree_C01 : case_C01 -> otree -> bool := agree_det run_C01.
